@@ -159,6 +159,8 @@ def quot_text(n, direction, salt=0):
     return c[salt % min(len(c), 4)]
 
 
+# constants an author may define (cfg.userconsts): a new name, a default name given another value
+USER_CONSTS = {'tau': 6, 'pi': 3, 'e': 2}
 # functions an author may define (cfg.userfuncs); values stay exact
 USER_FUNCS = {'first': lambda x: x - 1, 'dbl': lambda x: 2 * x}
 # name -> (text of a call whose value is `base`, base): an integer n is written  call + (n - base)
@@ -262,6 +264,12 @@ def grader_kwargs(aut, cfg, pos, stu=None):
         kw['user_funcs'] = sorted(cfg['userfuncs'])
     if cfg.get('debug'):
         kw['debug'] = True
+    uc = {name: None for name in sorted(cfg.get('removed', []))}          # the documented way of removing a default constant
+    uc.update({name: USER_CONSTS[name] for name in sorted(cfg.get('userconsts', []))})
+    if uc:
+        kw['user_constants'] = uc
+        if any(name in KNOWN_CONSTANTS for name in cfg.get('userconsts', [])):
+            kw['suppress_warnings'] = True                                 # overriding a default constant on purpose
     return kw, scripts
 
 
@@ -348,7 +356,8 @@ def make_signature(aut, stu, cfg, pos, allowed, observed, detail, kw, scripts, i
             'variables': kw['variables'], 'instructor_vars': kw['instructor_vars'], 'samples': kw['samples'],
             'tolerance': kw.get('tolerance', 'default'), 'user_fact': kw.get('user_fact', False), 'scripts': scripts,
             'blacklist': kw.get('blacklist'), 'whitelist': kw.get('whitelist'), 'required_functions': kw.get('required_functions'),
-            'user_funcs': kw.get('user_funcs'), 'debug': kw.get('debug', False), 'allowed': sorted(allowed),
+            'user_funcs': kw.get('user_funcs'), 'debug': kw.get('debug', False), 'user_constants': kw.get('user_constants'),
+            'suppress_warnings': kw.get('suppress_warnings', False), 'allowed': sorted(allowed),
             'observed': observed, 'detail': detail, 'class': finding_class(aut, allowed, observed, stu)}
 
 
@@ -584,6 +593,7 @@ def rand_case(rng, i):
     cfg = {'evenOdd': rng.choice([0, 0, 1, 2]), 'cut': cut, 'cutFact': cut_fact, 'xs': xs, 'cval': [2, 1],
            'vars': ['x'], 'ivars': ['c'], 'tol': tol}
     cfg.update(rand_restrictions(rng))
+    rand_constants(rng, cfg, aut)
     # ---- the submission: an exact rewriting ...
     sb = inline_c(body, cfg['cval'])
     sl, su = dict(l), dict(u)
@@ -601,7 +611,7 @@ def rand_case(rng, i):
     if rng.random() < .4:
         sl, su = su, sl
     if rng.random() < .3:
-        svar = rng.choice(VALID_NAMES)
+        svar = rng.choice(VALID_NAMES + cfg['removed'] * 4)          # a removed constant is a free name
         sb['v'] = svar
     if rng.random() < .1:
         sl = {'k': 'int', 'n': cut * (1 if sl['k'] == 'pinf' else -1)} if sl['k'] in ('pinf', 'ninf') else sl
@@ -632,7 +642,7 @@ def rand_case(rng, i):
     elif r < .08:
         stu['var'] = ''
     elif r < .12:
-        name = rng.choice(KNOWN_CONSTANTS + KNOWN_FUNCTIONS + ['x'])
+        name = rng.choice(KNOWN_CONSTANTS + KNOWN_FUNCTIONS + ['x', 'tau'] + cfg['removed'] * 3 + cfg['userconsts'] * 3)
         stu['var'] = name
         stu['body'] = dict(stu['body'], v=name)
     elif r < .16:
@@ -655,7 +665,7 @@ def rand_case(rng, i):
     elif r < .04:
         aut['body'] = dict(body, pole={'on': True, 'at': rng.randint(-6, 8)})
     elif r < .05:
-        name = rng.choice(['i', 'x', 'pi', 'c'])
+        name = rng.choice(['i', 'x', 'pi', 'c'] + cfg['removed'] * 4 + cfg['userconsts'] * 2)
         aut['var'] = name
         aut['body'] = dict(aut['body'], v=name)
     elif r < .06:
@@ -681,9 +691,26 @@ def rand_case(rng, i):
 FN_POOL = ['cos', 'abs', 'sqrt', 'exp', 'sin', 'ln']
 
 
+def writes_imaginary_unit(s):
+    b = s['body']
+    return s['lower']['k'] in ('cplx', 'creal') or s['upper']['k'] in ('cplx', 'creal') or b['add'][1][0] != 0 or \
+        any(t['coef'][1][0] != 0 for terms in b['comps'] for t in terms)
+
+
+def rand_constants(rng, cfg, aut):
+    """default constants removed by the author (i, j only where the imaginary unit is not written), constants overridden / added"""
+    r = rng.random()
+    if r < .12:
+        pool = ['pi', 'e'] + ([] if writes_imaginary_unit(aut) else ['i', 'j', 'i', 'j'])
+        cfg['removed'] = sorted(set(rng.sample(pool, rng.randint(1, 2))))
+    elif r < .18:
+        cfg['userconsts'] = [rng.choice(['tau', 'pi', 'e'])]
+
+
 def rand_restrictions(rng):
     """which functions a submission may / must use, which author-defined functions exist"""
-    r = {'userfuncs': [], 'forbidden': [], 'required': [], 'listing': 'black', 'debug': rng.random() < .12}
+    r = {'userfuncs': [], 'forbidden': [], 'required': [], 'listing': 'black', 'debug': rng.random() < .12,
+         'removed': [], 'userconsts': []}
     if rng.random() < .3:
         r['forbidden'] = sorted(rng.sample(FN_POOL, rng.randint(1, 3)))
         r['listing'] = rng.choice(['black', 'white'])
@@ -899,6 +926,10 @@ def replay(ctx, rec):
         kw['user_fact'] = True
     if sig.get('debug'):
         kw['debug'] = True
+    if sig.get('user_constants'):
+        kw['user_constants'] = sig['user_constants']
+    if sig.get('suppress_warnings'):
+        kw['suppress_warnings'] = True
     for k in ('blacklist', 'whitelist', 'required_functions', 'user_funcs'):
         if sig.get(k) is not None:
             kw[k] = sig[k]
